@@ -96,4 +96,35 @@ Section C02.
                          (group teqb g (cn tltb (sp g) x y) <> None \/
                           (directed (sp g) = true /\ group teqb g (y, x) <> None))).
   Proof. exact (get_neighbor_nodes_spec teqb tltb). Qed.
+
+  (* node-set variants: answered from the node list and get_all_edges alone *)
+  Theorem C02_has_nodes : forall (g : gstate) xs,
+    WF g -> has_nodes teqb g xs = Ok (forallb (in_names teqb g) xs).
+  Proof. exact (has_nodes_spec teqb tltb teqb_spec). Qed.
+
+  Theorem C02_edges_for_nodes : forall (g : gstate) xs,
+    WF g ->
+    get_edges_for_nodes teqb g xs =
+    if forallb (in_names teqb g) xs
+    then Ok (filter (fun e => mem_name teqb (eu e) xs || mem_name teqb (ev e) xs) (flat_map snd (edges g)))
+    else Err NodeNotFound.
+  Proof. exact (get_edges_for_nodes_spec teqb tltb teqb_spec). Qed.
+
+  Theorem C02_in_edges_for_nodes : forall (g : gstate) xs,
+    WF g ->
+    get_in_edges_for_nodes teqb g xs =
+    if negb (directed (sp g)) then Err WrongMethod
+    else if forallb (in_names teqb g) xs
+    then Ok (filter (fun e => mem_name teqb (ev e) xs) (flat_map snd (edges g)))
+    else Err NodeNotFound.
+  Proof. exact (get_in_edges_for_nodes_spec teqb tltb teqb_spec). Qed.
+
+  Theorem C02_out_edges_for_nodes : forall (g : gstate) xs,
+    WF g ->
+    get_out_edges_for_nodes teqb g xs =
+    if negb (directed (sp g)) then Err WrongMethod
+    else if forallb (in_names teqb g) xs
+    then Ok (filter (fun e => mem_name teqb (eu e) xs) (flat_map snd (edges g)))
+    else Err NodeNotFound.
+  Proof. exact (get_out_edges_for_nodes_spec teqb tltb teqb_spec). Qed.
 End C02.
